@@ -117,7 +117,8 @@ def chain(rec, ops):
             enc_ = lambda x: {"none": x is None, "v": 0 if x is None else x}   # noqa: E731
             evs.append({"ev": "SliceStep", "pre": pre, "a": enc_(a), "b": enc_(b), "step": 1 if st is None else st, "res": r, "exc": exc})
         elif kind == "RC":
-            out, exc = _exc(cur.reverse_complement)
+            kw = dict(op[1]) if len(op) > 1 else {}          # the keyword arguments of SeqRecord.reverse_complement
+            out, exc = _exc(lambda: cur.reverse_complement(**kw))
             evs.append({"ev": "RevComp", "pre": pre, "exc": exc, "post": project.project(out) if exc == "" else pre})
             if exc == "":
                 cur = out
